@@ -23,17 +23,17 @@ pub fn check_exposition(cx: &mut Ctx, pmfs: &[proto::MetricFamily], gathered: bo
         // C09: names
         if !metric_name_ok(&mf.name) {
             names_valid = false;
-            cx.owned_violation("C09", "exposed-metric-name-invalid", what, format!("gather exposes metric name {:?}", mf.name), detail());
+            cx.owned_violation_with("C09", "exposed-metric-name-invalid", what, format!("gather exposes metric name {:?}", mf.name), &detail);
         }
         for m in &mf.metrics {
             for (k, (n, _)) in m.labels.iter().enumerate() {
                 if !label_name_ok(n) {
                     names_valid = false;
-                    cx.owned_violation("C09", "exposed-label-name-invalid", what, format!("sample of {} carries label name {:?}", mf.name, n), detail());
+                    cx.owned_violation_with("C09", "exposed-label-name-invalid", what, format!("sample of {} carries label name {:?}", mf.name, n), &detail);
                 }
                 if m.labels[..k].iter().any(|(o, _)| o == n) {
                     names_valid = false;
-                    cx.owned_violation("C09", "exposed-label-name-twice", what, format!("sample of {} carries label name {:?} twice: {:?}", mf.name, n, m.labels), detail());
+                    cx.owned_violation_with("C09", "exposed-label-name-twice", what, format!("sample of {} carries label name {:?} twice: {:?}", mf.name, n, m.labels), &detail);
                 }
             }
             // C14: payload matches the declared type
@@ -47,22 +47,20 @@ pub fn check_exposition(cx: &mut Ctx, pmfs: &[proto::MetricFamily], gathered: bo
             };
             if !present[want] || present.iter().enumerate().any(|(k, p)| *p && k != want) {
                 let mixed = cx.mixed_kind_names.iter().any(|n| mf.name == *n || mf.name.ends_with(&format!("_{}", n)));
-                cx.owned_violation(
+                cx.owned_violation_with(
                     "C14",
                     if mixed { "gather-merges-same-name-collectors-of-different-kinds" } else { "sample-payload-does-not-match-family-type" },
                     if mixed { "registry::gather" } else { what },
-                    format!("family {} is declared {} but a sample carries counter={:?} gauge={:?} summary={} untyped={:?} histogram={}", mf.name, mf.typ.text(), m.counter, m.gauge, m.summ.is_some(), m.untyped, m.hist.is_some()),
-                    detail(),
-                );
+                    format!("family {} is declared {} but a sample carries counter={:?} gauge={:?} summary={} untyped={:?} histogram={}", mf.name, mf.typ.text(), m.counter, m.gauge, m.summ.is_some(), m.untyped, m.hist.is_some()), &detail);
             }
         }
         if gathered {
             // C07: canonical order, completeness side conditions
             if i > 0 && mfs[i - 1].name >= mf.name {
-                cx.owned_violation("C07", "family-names-not-strictly-increasing", what, format!("{:?} is followed by {:?}", mfs[i - 1].name, mf.name), detail());
+                cx.owned_violation_with("C07", "family-names-not-strictly-increasing", what, format!("{:?} is followed by {:?}", mfs[i - 1].name, mf.name), &detail);
             }
             if mf.metrics.is_empty() {
-                cx.owned_violation("C07", "empty-family-gathered", what, format!("family {} has no samples", mf.name), detail());
+                cx.owned_violation_with("C07", "empty-family-gathered", what, format!("family {} has no samples", mf.name), &detail);
             }
             for w in mf.metrics.windows(2) {
                 let (a, b) = (&w[0], &w[1]);
@@ -72,14 +70,14 @@ pub fn check_exposition(cx: &mut Ctx, pmfs: &[proto::MetricFamily], gathered: bo
                     let va: Vec<&String> = a.labels.iter().map(|l| &l.1).collect();
                     let vb: Vec<&String> = b.labels.iter().map(|l| &l.1).collect();
                     if va > vb {
-                        cx.owned_violation("C07", "samples-not-ordered-by-label-values", what, format!("in {} sample {:?} precedes {:?}", mf.name, va, vb), detail());
+                        cx.owned_violation_with("C07", "samples-not-ordered-by-label-values", what, format!("in {} sample {:?} precedes {:?}", mf.name, va, vb), &detail);
                     }
                 }
             }
         }
         for (a, ma) in mf.metrics.iter().enumerate() {
             if mf.metrics[..a].iter().any(|o| o.labels == ma.labels) {
-                cx.owned_violation("C07", "label-set-exposed-twice", what, format!("family {} has two samples with labels {:?}", mf.name, ma.labels), detail());
+                cx.owned_violation_with("C07", "label-set-exposed-twice", what, format!("family {} has two samples with labels {:?}", mf.name, ma.labels), &detail);
             }
         }
     }
